@@ -285,6 +285,82 @@ def rule_h1(repo, res):
                         "quantity through the decoder", where=f"pvl/parser.py:{pu.lineno}"))
 
 
+def rule_v5(repo, res):
+    """V5: in both container families, append(key, value) takes exactly a key and a value (no default that stands for
+    "not given": None is the value of a PVL NULL) and adds that one pair whatever the value is -- no test on the value."""
+    n = 0
+    for cname, cnode in repo.module("collections").classes.items():
+        fn = next((x for x in cnode.body if isinstance(x, ast.FunctionDef) and x.name == "append"), None)
+        if fn is None:
+            continue
+        n += 1
+        a = fn.args
+        params = [x.arg for x in a.args]
+        sig_ok = len(params) == 3 and not a.defaults and not a.vararg and not a.kwarg and not a.kwonlyargs
+        vname = params[2] if len(params) >= 3 else None
+        tests = [t for t in ast.walk(fn) if isinstance(t, (ast.If, ast.IfExp, ast.While)) and vname is not None
+                 and any(isinstance(x, ast.Name) and x.id == vname for x in ast.walk(t.test))]
+        ok = sig_ok and not tests
+        res.oblige("V5", f"{cname}.append(self, key, value): no default and no test on the value", ok=ok)
+        if not ok:
+            why = "its signature is " + norm(fn.args, 60) if not sig_ok else f"it tests the value (`{norm(tests[0].test, 50)}`)"
+            res.add(Finding("V5", f"{cname}.append", "value-dependent append",
+                            f"{cname}.append does not simply add (key, value): {why}.  The parser appends every decoded value, and "
+                            "None (a PVL NULL), 0, '' and empty containers are values like any other", where=f"pvl/collections.py:{fn.lineno}"))
+    res.floor("append methods of the container classes", n, 2)
+
+
+def rule_h4(repo, res):
+    """H4: the values parse_value() returns reach the set / sequence they belong to unchanged.  In every parser class,
+    parse_set / parse_sequence return the collection _parse_set_seq built (or frozenset/set/list/tuple of it), and
+    _parse_set_seq appends exactly what parse_value returned.  A per-element conversion (a comprehension or helper
+    applied to the elements) rebuilds values: a Quantity (a namedtuple, so also a Sequence) of the caller's class
+    becomes a plain tuple, a Decimal a float."""
+    n = 0
+    for P in sorted(repo.subclasses("PVLParser")):
+        for m in ("parse_set", "parse_sequence"):
+            defcls, fn = repo.resolve_method(P, m)
+            if fn is None:
+                raise AnalysisError(f"anchor vanished: {P}.{m}")
+            if defcls != P and P != "PVLParser":
+                continue                       # inherited: examined at the defining class
+            fn = repo.full(defcls, m)
+            coll = {t.id for a in ast.walk(fn) if isinstance(a, ast.Assign) and isinstance(a.value, ast.Call)
+                    and norm(a.value.func) in ("self._parse_set_seq", "list", "[]") for t in a.targets if isinstance(t, ast.Name)}
+            coll |= {t.id for a in ast.walk(fn) if isinstance(a, ast.Assign) and isinstance(a.value, ast.List) and not a.value.elts
+                     for t in a.targets if isinstance(t, ast.Name)}
+            for r in [x for x in ast.walk(fn) if isinstance(x, ast.Return) and x.value is not None]:
+                n += 1
+                v = r.value
+                ok = (isinstance(v, ast.Name) and v.id in coll) or \
+                     (isinstance(v, ast.Call) and norm(v.func) == "self._parse_set_seq") or \
+                     (isinstance(v, ast.Call) and norm(v.func) in ("frozenset", "set", "list", "tuple") and len(v.args) == 1 and not v.keywords
+                      and ((isinstance(v.args[0], ast.Name) and v.args[0].id in coll)
+                           or (isinstance(v.args[0], ast.Call) and norm(v.args[0].func) == "self._parse_set_seq")))
+                res.oblige("H4", f"{defcls}.{m} `{norm(r, 60)}` returns the parsed elements as they are", ok=ok)
+                if not ok:
+                    res.add(Finding("H4", f"{defcls}.{m}", "elements converted on the way into the collection",
+                                    f"{defcls}.{m} returns `{norm(v, 80)}`: the elements parse_value() produced are rebuilt one by "
+                                    "one instead of being collected as they are, so values of the caller's substitute classes "
+                                    "(a Quantity subclass, a real_cls) lose their class inside sets / sequences",
+                                    where=f"pvl/parser.py:{r.lineno}"))
+        defcls, fn = repo.resolve_method(P, "_parse_set_seq")
+        if fn is not None and (defcls == P or P == "PVLParser"):
+            fn = repo.full(defcls, "_parse_set_seq")
+            direct = {t.id for a in ast.walk(fn) if isinstance(a, ast.Assign) and isinstance(a.value, ast.Call)
+                      and norm(a.value.func) == "self.parse_value" for t in a.targets if isinstance(t, ast.Name)}
+            for c in [x for x in ast.walk(fn) if isinstance(x, ast.Call) and isinstance(x.func, ast.Attribute) and x.func.attr in ("append", "add", "insert")]:
+                a = c.args[-1] if c.args else None
+                n += 1
+                ok = a is not None and ((isinstance(a, ast.Call) and norm(a.func) == "self.parse_value") or (isinstance(a, ast.Name) and a.id in direct))
+                res.oblige("H4", f"{defcls}._parse_set_seq `{norm(c, 60)}` stores what parse_value returned", ok=ok)
+                if not ok:
+                    res.add(Finding("H4", f"{defcls}._parse_set_seq", "element converted before it is stored",
+                                    f"{defcls}._parse_set_seq stores `{norm(a, 60) if a is not None else '?'}` instead of the value "
+                                    "parse_value() returned", where=f"pvl/parser.py:{c.lineno}"))
+    res.floor("H4 return / store sites of sets and sequences", n, 4)
+
+
 def rule_h2(repo, res):
     """H2: no isinstance test for a real-number type (float, Decimal, numbers.Real, ...) on a decoded value in parser
     or encoder that ignores the caller's real_cls (Decimal is not a numbers.Real; a user class need not be one)."""
